@@ -162,7 +162,14 @@ func VHarness_C14_SnapshotRoundTrip() {
 
 // one bit (or one whole byte) of the header region altered: the read fails, or the
 // payload and the header fields the loader acts on are unchanged
-//vcheck: reach=detected,undetected,done
+// selftest=off: the header carries the wall-clock time (UnreliableTime), so its
+// checksum bytes differ between the executor (fixed clock) and a native rerun;
+// when the flipped bit lengthens the header by four bytes those checksum bytes
+// are parsed as protobuf fields, and whether that parse fails ("detected") or
+// yields unknown fields ("undetected", everything the loader acts on unchanged)
+// legitimately differs between the two runs - both outcomes satisfy the oracle.
+// Counterexamples are still replayed natively.
+//vcheck: reach=detected,undetected,done selftest=off
 func VHarness_C14_SnapshotHeaderFlip() {
 	n := 2
 	// concrete payload: its checksum is part of the header, and symbolic header
